@@ -23,6 +23,7 @@ import (
 	"fmt"
 	"io"
 	"log"
+	"math/rand"
 	"reflect"
 	"sort"
 	"time"
@@ -451,30 +452,46 @@ func (k *KVStore) Check(hkey uint64) bool {
 }
 
 // Range calls f sequentially for each key and value present in the map.
-// If f returns false, range stops the iteration. Range may be O(N) with
-// the number of elements in the map even if f returns false after a constant
-// number of calls.
+// If f returns false, range stops the iteration.
 func (k *KVStore) Range(f func(hkey uint64, e storage.Entry) bool) {
-	// Scan available tables by starting the last added table.
-	for i := len(k.tables) - 1; i >= 0; i-- {
-		t := k.tables[i]
+	k.rangeTables(func(t *table.Table) bool {
+		cont := true
 		t.Range(func(hkey uint64, e storage.Entry) bool {
-			return f(hkey, e)
+			cont = f(hkey, e)
+			return cont
 		})
-	}
+		return cont
+	})
 }
 
 // RangeHKey calls f sequentially for each key present in the map.
-// If f returns false, range stops the iteration. Range may be O(N) with
-// the number of elements in the map even if f returns false after a constant
-// number of calls.
+// If f returns false, range stops the iteration.
 func (k *KVStore) RangeHKey(f func(hkey uint64) bool) {
-	// Scan available tables by starting the last added table.
-	for i := len(k.tables) - 1; i >= 0; i-- {
-		t := k.tables[i]
+	k.rangeTables(func(t *table.Table) bool {
+		cont := true
 		t.RangeHKey(func(hkey uint64) bool {
-			return f(hkey)
+			cont = f(hkey)
+			return cont
 		})
+		return cont
+	})
+}
+
+// rangeTables visits every table once, starting from a randomly selected one.
+// The callers that stop after a handful of keys (the eviction worker, the LRU
+// sampler) take their samples from the table they see first: always starting
+// from the last added table hides the keys of all the other tables from them,
+// and the expired or idle keys there are never collected.
+func (k *KVStore) rangeTables(f func(t *table.Table) bool) {
+	n := len(k.tables)
+	if n == 0 {
+		return
+	}
+	start := rand.Intn(n)
+	for i := 0; i < n; i++ {
+		if !f(k.tables[(start+i)%n]) {
+			return
+		}
 	}
 }
 
